@@ -93,16 +93,17 @@ def run_check(prop, info, tier, seed, only, verbose):
     timeout_ms = 6000 if tier == "quick" else 30000
     reports = generate(prop, only)
     obs = [o for r in reports for o in r.obligations]
+    known = load_known_findings()
     t_solve = time.time()
     discharge(obs, timeout_ms)
     # undecided queries get a second, longer attempt (few at a time, so that a busy machine cannot flip a verdict)
-    retry = [o for o in obs if o.result not in ("unsat", "sat") and o.kind != "canary"]
+    # (obligations of a listed known finding need not be decided: their "outside the region" version is what is proved)
+    retry = [o for o in obs if o.result not in ("unsat", "sat") and o.kind != "canary" and not any(kf_matches(k, o) for k in known)]
     if retry:
         for o in retry:
             o.result = ""
         discharge(retry, timeout_ms * 4, procs=8)
     t_solve = time.time() - t_solve
-    known = load_known_findings()
     violations, undecided, errors, known_hits, unknowns = [], [], [], [], []
     # --- classify
     for r in reports:
